@@ -19,7 +19,8 @@ def units(tier):
 
 
 def strategy(tier, unit):
-    return st.fixed_dictionaries({"cell": S.cells(), "hkl": S.hkls(30), "mod": st.sampled_from(["tools", "laue"])})
+    return st.fixed_dictionaries({"cell": S.cells(), "hkl": S.hkls(30), "mod": st.sampled_from(["tools", "laue"]),
+                                  "prev": st.one_of(st.none(), S.cells()), "as_array": st.booleans()})
 
 
 def check(case, ctx):
@@ -38,6 +39,17 @@ def check(case, ctx):
     if gd < 0.021:
         ctx.event("gram-boundary")
     m = case["mod"]
+    cell_values = list(cell)
+    # history element: the caller keeps ONE cell object and updates it in place (refinement loop); every function
+    # must depend on the current contents only.  The object first holds another cell, is used, then overwritten.
+    if case.get("prev") is not None:
+        holder = np.array(case["prev"], float) if case.get("as_array") else [float(x) for x in case["prev"]]
+        for fn in (mod.form_a_mat, mod.form_b_mat, mod.cell_volume, mod.cell_invert, mod.form_a_mat_inv):
+            fn(holder)
+        mod.sintl(holder, case["hkl"])
+        holder[:] = cell_values
+        cell = holder
+        ctx.event("cell-object-reused-in-place")
 
     A = np.asarray(mod.form_a_mat(cell), float)
     B = np.asarray(mod.form_b_mat(cell), float)
@@ -74,6 +86,8 @@ def check(case, ctx):
     Ai = np.asarray(mod.form_a_mat_inv(cell), float)
     # A^-1 A = I, scaled so that axial ratios do not matter: (Ai A) is dimensionless
     ctx.near("Ainv.A=I", O.maxabs(Ai @ A - np.eye(3)), 1e-8, "form_a_mat_inv", "%s: A^-1.A != I" % m)
+    if [float(x) for x in cell] != cell_values:
+        ctx.fail("argument-mutated", "%s: a function changed the caller's cell object to %r" % (m, list(cell)))
 
 
 def _cell_diff(c1, c2):
